@@ -504,9 +504,12 @@ class PassiveState(State):
                     "https://github.com/Budapest-Quantum-Computing-Group/piquasso/issues"  # noqa: E501
                 )
 
+            # NOTE: `get_postselected_fock_basis` expects the total number of modes and
+            # the cutoff of the full system, whereas `self.d` and `self._config.cutoff`
+            # are already reduced by the postselected modes and photons.
             occupation_numbers = get_postselected_fock_basis(
-                d=self.d,
-                cutoff=self._config.cutoff,
+                d=self.total_number_of_modes,
+                cutoff=self._config.cutoff + int(sum(self._get_postselected_photons())),
                 postselected_modes=self._get_postselected_modes(),
                 postselected_photons=self._get_postselected_photons(),
             )
